@@ -26,7 +26,10 @@ Record kspec := mkKS {
 
 Record obs := mkObs { o_vals : list Z; o_flags : list bool }.   (* node.value / outdated of every node *)
 
-Record iter := mkIt { it_raised : bool; it_steps : list (bool * obs) }.
+(* it_steps: per kernel (acceptance reported, error code reported, state observed after the kernel);
+   it_final_only: the run went through EngineBuilder + Engine, only the state after the whole iteration was
+   observed (it_steps then has one entry per kernel for acceptance / code, all carrying that final state) *)
+Record iter := mkIt { it_raised : bool; it_final_only : bool; it_steps : list (bool * nat * obs) }.
 
 Record c09case := mkCase {
   c_g : zgraph;
@@ -68,12 +71,15 @@ Fixpoint states_agree (g : zgraph) (sts : list zpst) (os : list obs) : bool :=
 
 (* one iteration: Some new state if model and observation agree, None otherwise *)
 Definition run_iter (b : bool) (g : zgraph) (kss : list kspec) (st : zpst) (it : iter) : option zpst :=
-  let orc := orc_of g kss (map fst (it_steps it)) in
-  match seq_transition (memo interp 0%Z) g (internal0 b) orc (map kernel_of kss) st with
+  let orc := orc_of g kss (map (fun x => fst (fst x)) (it_steps it)) in
+  let codes := fun (i : nat) (_ : zpst) => nth i (map (fun x => snd (fst x)) (it_steps it)) 0%nat in
+  match seq_from_c (memo interp 0%Z) g (internal0 b) orc codes 0 (map kernel_of kss) st with
   | None => if it_raised it then Some st else None
-  | Some (stf, tr) =>
+  | Some (stf, tr, _) =>
       if it_raised it then None
-      else if states_agree g (tl tr ++ [stf]) (map snd (it_steps it)) then Some stf else None
+      else if it_final_only it
+           then (if forallb (state_agrees g stf) (map snd (it_steps it)) then Some stf else None)
+           else if states_agree g (tl tr ++ [stf]) (map snd (it_steps it)) then Some stf else None
   end.
 
 Fixpoint first_bad (b : bool) (g : zgraph) (kss : list kspec) (st : zpst) (its : list iter) (i : nat)
